@@ -346,6 +346,7 @@ func runC03(c *Ctx) {
 	c.Min("I4-positional", 6)
 	// ---- I6: the element addressed is the one named by the key, the value stored is the one assigned
 	c.ruleI6("I6-key-and-value-reach-access")
+	c.ruleI7("I7-dotted-name-plumbing")
 	// ---- I5
 	if f := c.MustFn("I5-missing-key-zero", "internal/base", "MapVar", "Evaluate"); f != nil {
 		x := c.Index(f)
@@ -788,4 +789,87 @@ func (c *Ctx) ruleI6(rule string) {
 		}
 	}
 	c.Min(rule, 20)
+}
+
+// ruleI7: dotted names a.b and a.b.c are taken apart positionally: the object is looked up under
+// part 0, the first field / method under part 1 on that object, the second under part 2 on the
+// result of the first step.
+func (c *Ctx) ruleI7(rule string) {
+	n := 0
+	for _, f := range c.Methods("context", "DataContext") {
+		switch f.Name() {
+		case "GetValue", "SetValue", "ExecMethod", "ExecThreeLevel":
+		default:
+			continue
+		}
+		x := c.Index(f)
+		// part index of a string value: *(&split[k])
+		partIdx := func(v ssa.Value) (int64, bool) {
+			u, ok := x.Origin(v).(*ssa.UnOp)
+			if !ok {
+				return 0, false
+			}
+			ia, ok := u.X.(*ssa.IndexAddr)
+			if !ok {
+				return 0, false
+			}
+			sc, ok := x.Origin(ia.X).(*ssa.Call)
+			if !ok || !fnIs(sc.Call.StaticCallee(), "strings", "", "Split") {
+				return 0, false
+			}
+			return constInt(ia.Index)
+		}
+		// depth of an object value: 0 = looked up in the injected table / locals under part 0,
+		// 1 = result of a GetStructAttributeValue step on a depth-0 object
+		var depth func(v ssa.Value, d int) (int, bool)
+		depth = func(v ssa.Value, d int) (int, bool) {
+			if d > 4 {
+				return 0, false
+			}
+			o := x.Origin(v)
+			ex, ok := o.(*ssa.Extract)
+			if !ok || ex.Index != 0 {
+				return 0, false
+			}
+			switch t := ex.Tuple.(type) {
+			case *ssa.Lookup:
+				if k, ok := partIdx(t.Index); ok && k == 0 {
+					return 0, true
+				}
+			case *ssa.Call:
+				if calleeIs(t, pCore, "", "GetStructAttributeValue") {
+					if dd, ok := depth(t.Call.Args[0], d+1); ok {
+						return dd + 1, true
+					}
+				}
+			}
+			return 0, false
+		}
+		k := 0
+		eachInstr(f, func(in ssa.Instruction) {
+			call, ok := in.(*ssa.Call)
+			if !ok {
+				return
+			}
+			cal := call.Call.StaticCallee()
+			if cal == nil || cal.Pkg == nil || cal.Pkg.Pkg.Path() != pCore {
+				return
+			}
+			switch cal.Name() {
+			case "GetStructAttributeValue", "SetAttributeValue", "InvokeFunction":
+			default:
+				return
+			}
+			k++
+			n++
+			key := fmt.Sprintf("%s#%s%d", fnName(f), cal.Name(), k)
+			d, okD := depth(call.Call.Args[0], 0)
+			pi, okP := partIdx(call.Call.Args[1])
+			c.Check(rule, key, okD && okP && pi == int64(d+1), in.Pos(), "%s on an object reached after %d step(s) must use part %d of the dotted name (uses part %d; object/part recognised: %v/%v)", cal.Name(), d, d+1, pi, okD, okP)
+		})
+	}
+	if n == 0 {
+		c.Lost(rule, "field / method steps in DataContext")
+	}
+	c.Min(rule, 14)
 }
